@@ -62,7 +62,7 @@ theorem writeFile_first_slot {sd : Side} {bat : List Nat} {own : Nat → List Na
     (content : Bytes) (name ext : Str) (kind flag : Nat) (sd' : Side)
     (hw : writeFile sd content name ext kind flag = .ok sd') (i0 : Nat) (hi0 : i0 < 112)
     (hnl : ¬ liveData (slotData sd i0)) (hl : liveData (slotData sd' i0)) : ∀ j, j < i0 → liveData (slotData sd j) := by
-  rw [writeFile_unfold sd bat content name ext kind flag inv.hbat] at hw
+  rw [writeFile_unfold sd bat content name ext kind flag inv.hbat inv.not_free40.1 inv.not_free40.2] at hw
   by_cases hfit : (chosen bat (reqBlocks content.length)).length < reqBlocks content.length
   · rw [if_pos hfit] at hw; cases hw
   · rw [if_neg hfit] at hw
@@ -230,8 +230,8 @@ theorem injLoop_side0_order (w : Tape.World) : ∀ (items : List (Str × Bytes))
   | cons p rest ih =>
     intro st B S k hcur hall hroom hseq hk
     obtain ⟨src, data⟩ := p
-    obtain ⟨hne, hw, h8, h3, hclean⟩ := hall (src, data) (by simp)
-    dsimp only at hne hw h8 h3 hclean
+    obtain ⟨hne, hw, h8, h3, hclean, hascii⟩ := hall (src, data) (by simp)
+    dsimp only at hne hw h8 h3 hclean hascii
     have hname := splitSource_name_clean src hclean
     simp only [List.map_cons, injLoop]
     rw [if_neg hne]
@@ -249,7 +249,7 @@ theorem injLoop_side0_order (w : Tape.World) : ∀ (items : List (Str × Bytes))
       dsimp only
       rw [hw]
       dsimp only
-      rw [if_neg (Nat.not_lt.mpr h8), if_neg (Nat.not_lt.mpr h3), hs1]
+      rw [if_neg (Nat.not_lt.mpr h8), if_neg (Nat.not_lt.mpr h3), if_neg (by rw [hascii]; simp), hs1]
     rw [hfile]
     dsimp only
     rw [if_neg (by simp [hc1])]
@@ -334,12 +334,68 @@ theorem sideFiles_fresh (dir : Str) : sideFiles freshSide dir = [] := by
   have : fileAt freshSide j = none := (fileAt_none_iff fresh_inv j hj').mpr (fun hl => hl.1 (fresh_slots_unused j hj'))
   rw [this]; rfl
 
+/-- the files of an image whose side 0 holds `items` in its first entries (nothing after) and whose
+    other sides are fresh -/
+theorem sidesFiles_side0 (target : Str) (img : Image) (items : List (Str × Bytes)) (h4 : img.length = 4) (hS : items.length ≤ 112)
+    (hfiles : ∀ i, (hi : i < items.length) → ∃ r, imgFileAt img 0 i = some (r, (items[i]).2) ∧ RecOf (items[i]).1 r (items[i]).2.length)
+    (hrest : ∀ j, j < 112 → (j < 0 ∨ items.length ≤ j) → imgFileAt img 0 j = none)
+    (hsides : ∀ i, 1 ≤ i → img.getD i [] = ((List.replicate 4 blankSide).map initFileSystem).getD i []) :
+    sidesFiles target img 0
+      = items.map (fun p => (pathJoin (pathJoin target (str "side" ++ digits 0)) (diskName p.1), p.2)) := by
+  obtain ⟨a, b, c, d, himg⟩ : ∃ a b c d, img = [a, b, c, d] := by
+    match hm : img, h4 with
+    | [a, b, c, d], _ => exact ⟨a, b, c, d, rfl⟩
+  have hb : b = freshSide := by
+    have := hsides 1 (by omega)
+    rw [himg] at this
+    rw [fresh_getD 1 (by omega)] at this
+    exact this
+  have hc : c = freshSide := by
+    have := hsides 2 (by omega)
+    rw [himg] at this
+    rw [fresh_getD 2 (by omega)] at this
+    exact this
+  have hd : d = freshSide := by
+    have := hsides 3 (by omega)
+    rw [himg] at this
+    rw [fresh_getD 3 (by omega)] at this
+    exact this
+  have ha : img.getD 0 [] = a := by rw [himg]; rfl
+  rw [himg, hb, hc, hd]
+  simp only [sidesFiles, sideFiles_fresh, List.append_nil]
+  -- side 0: the entries 0 … n-1 hold the sources in order, the others nothing
+  unfold sideFiles
+  rw [filterMap_prefix _ (fun i => (pathJoin (pathJoin target (str "side" ++ digits 0)) (diskName (items.getD i ([], [])).1), (items.getD i ([], [])).2))
+    items.length 112 hS]
+  · apply List.ext_getElem
+    · simp
+    · intro i h1 h2
+      simp only [List.getElem_map, List.getElem_range]
+      have hi : i < items.length := by simpa using h1
+      rw [List.getD_eq_getElem?_getD, List.getElem?_eq_getElem hi]
+      rfl
+  · intro i hi
+    obtain ⟨r, hr1, hr2⟩ := hfiles i hi
+    unfold imgFileAt at hr1
+    rw [ha] at hr1
+    rw [hr1]
+    simp only [Option.map_some]
+    rw [fileName_of_rec _ r _ hr2, List.getD_eq_getElem?_getD, List.getElem?_eq_getElem hi]
+    rfl
+  · intro i h1 h2
+    have := hrest i h2 (Or.inr h1)
+    unfold imgFileAt at this
+    rw [ha] at this
+    rw [this]; rfl
+
+
 /-- **a batch that fits on the first side is extracted in the order given**: the image `--create`
     writes holds source `i` in catalog entry `i` of side 0, nothing else anywhere, and `--extract`
     writes exactly `side0/NAME.EXT` for each source, in the order of the command line, with its data -/
 theorem small_batch_in_order (fl : Flavour) (w : Tape.World) (verbose : Bool) (archive : Str) (items : List (Str × Bytes))
     (hall : ∀ p ∈ items, Storable w p.1 p.2) (hord : ∀ p ∈ items, OrdinarySrc p.1)
-    (hB : batchBlocks items ≤ 157) (hS : items.length ≤ 112) (verbose2 : Bool) (into : Option Str) :
+    (hB : batchBlocks items ≤ 157) (hS : items.length ≤ 112) (verbose2 : Bool) (into : Option Str)
+    (hk : ∀ p ∈ items, samePath (pathJoin (pathJoin (Tape.targetDirOf archive into) (str "side" ++ digits 0)) (diskName p.1)) archive = false) :
     ∃ img, ImgOk img
       ∧ (create fl w verbose archive (items.map (·.1))).writes = [(archive, save fl img)]
       ∧ (∀ i, (hi : i < items.length) → ∃ r, imgFileAt img 0 i = some (r, (items[i]).2) ∧ RecOf (items[i]).1 r (items[i]).2.length)
@@ -347,7 +403,7 @@ theorem small_batch_in_order (fl : Flavour) (w : Tape.World) (verbose : Bool) (a
       ∧ (extract fl verbose2 archive into (save fl img)).writes
           = items.map (fun p => (pathJoin (pathJoin (Tape.targetDirOf archive into) (str "side" ++ digits 0)) (diskName p.1), p.2)) := by
   have hclean : ∀ s ∈ items.map (·.1), CleanSrc s := fun s hs => by
-    obtain ⟨p, hp, rfl⟩ := List.mem_map.mp hs; exact (hall p hp).2.2.2.2
+    obtain ⟨p, hp, rfl⟩ := List.mem_map.mp hs; exact (hall p hp).2.2.2.2.1
   have hords : ∀ s ∈ items.map (·.1), OrdinarySrc s := fun s hs => by
     obtain ⟨p, hp, rfl⟩ := List.mem_map.mp hs; exact hord p hp
   obtain ⟨st, hst, hok, _, hof⟩ := performCore_files w verbose _ (items.map (·.1)) fresh_img_ok hclean
@@ -361,62 +417,16 @@ theorem small_batch_in_order (fl : Flavour) (w : Tape.World) (verbose : Bool) (a
     have := fresh_no_file k j hk hj
     unfold imgFileAt at this
     rw [this] at hf; cases hf
-  obtain ⟨hx1, hx2⟩ := extract_consistent fl verbose2 archive into st.img hok hnice
   simp only [Nat.zero_add] at hfiles hseq hrest
+  have hsf := sidesFiles_side0 (Tape.targetDirOf archive into) st.img items hok.1 hS
+    (fun i hi => by rw [himgeq]; exact hfiles i hi)
+    (fun j hj hjj => by have := hrest j hj hjj; rw [← himgeq, fresh_no_file 0 j (by omega) hj] at this; exact this)
+    (fun i hi => by have := hsides i hi; rw [← himgeq] at this; exact this)
+  obtain ⟨hx1, hx2⟩ := extract_consistent fl verbose2 archive into st.img hok hnice
+    (by rw [hsf]; intro p hp; obtain ⟨q, hq, hpq⟩ := List.mem_map.mp hp; rw [← hpq]; dsimp only; exact hk q hq)
   refine ⟨st.img, hok, ?_, ?_, hx1, ?_⟩
   · unfold create performOn; rw [if_neg (by simp), hst]
   · intro i hi; rw [himgeq]; exact hfiles i hi
-  · rw [hx2]
-    have h4 : st.img.length = 4 := hok.1
-    obtain ⟨a, b, c, d, himg⟩ : ∃ a b c d, st.img = [a, b, c, d] := by
-      match hm : st.img, h4 with
-      | [a, b, c, d], _ => exact ⟨a, b, c, d, rfl⟩
-    have hb : b = freshSide := by
-      have := hsides 1 (by omega)
-      rw [← himgeq, himg] at this
-      dsimp only at this
-      rw [fresh_getD 1 (by omega)] at this
-      exact this
-    have hc : c = freshSide := by
-      have := hsides 2 (by omega)
-      rw [← himgeq, himg] at this
-      dsimp only at this
-      rw [fresh_getD 2 (by omega)] at this
-      exact this
-    have hd : d = freshSide := by
-      have := hsides 3 (by omega)
-      rw [← himgeq, himg] at this
-      dsimp only at this
-      rw [fresh_getD 3 (by omega)] at this
-      exact this
-    have ha : st.img.getD 0 [] = a := by rw [himg]; rfl
-    rw [himg, hb, hc, hd]
-    simp only [sidesFiles, sideFiles_fresh, List.append_nil]
-    -- side 0: the entries 0 … n-1 hold the sources in order, the others nothing
-    unfold sideFiles
-    rw [filterMap_prefix _ (fun i => (pathJoin (pathJoin (Tape.targetDirOf archive into) (str "side" ++ digits 0)) (diskName (items.getD i ([], [])).1), (items.getD i ([], [])).2))
-      items.length 112 hS]
-    · apply List.ext_getElem
-      · simp
-      · intro i h1 h2
-        simp only [List.getElem_map, List.getElem_range]
-        have hi : i < items.length := by simpa using h1
-        rw [List.getD_eq_getElem?_getD, List.getElem?_eq_getElem hi]
-        rfl
-    · intro i hi
-      obtain ⟨r, hr1, hr2⟩ := hfiles i hi
-      rw [← himgeq] at hr1
-      unfold imgFileAt at hr1
-      rw [ha] at hr1
-      rw [hr1]
-      simp only [Option.map_some]
-      rw [fileName_of_rec _ r _ hr2, List.getD_eq_getElem?_getD, List.getElem?_eq_getElem hi]
-      rfl
-    · intro i h1 h2
-      have := hrest i h2 (Or.inr h1)
-      rw [← himgeq, fresh_no_file 0 i (by omega) h2] at this
-      unfold imgFileAt at this
-      rw [ha] at this
-      rw [this]; rfl
+  · rw [hx2]; exact hsf
 
 end Moto.Disk
